@@ -29,6 +29,17 @@ fn payload(r: &mut Rng, class: &str) -> Vec<u8> {
         "scheme-huge" => (*r.pick(&["stop=9\n1=3000000000-3000000000\n2=2147483648-2147483648\n3=4294967295-4294967296", "stop=4\n1=9223372036854775807-9223372036854775807\n2=99999999999999999999-1", "stop=4294967295\n1=2147483649-2147483650\n2=4294967294-4294967294"])).as_bytes().to_vec(),
         "scheme-neg" => b"stop=3\n1=-5--1,c,-1-5\n2=-2147483648-7".to_vec(),
         "scheme-nonnum" => (*r.pick(&["stop=x", "stop=", "1=1-1", "stop=3\n1=a-b,c,1-x", "stop=-1"])).as_bytes().to_vec(),
+        "text-nonascii" => {
+            // multi-byte and invalid sequences, shifted so that character boundaries fall at every offset
+            // around the usual limits (255/256, 1023/1024, 4095/4096)
+            let shift = r.below(4) as usize;
+            let mut v: Vec<u8> = vec![b'A'; shift];
+            let unit: &[u8] = match r.below(5) { 0 => "\u{e9}".as_bytes(), 1 => "\u{6f22}".as_bytes(), 2 => "\u{1f600}".as_bytes(), 3 => &[0xff], _ => &[0xc3] };
+            let target = *r.pick(&[250usize, 256, 260, 300, 1024, 1030, 4100, 20000]);
+            if r.chance(1, 2) { v.extend(std::iter::repeat(b'A').take(target.saturating_sub(unit.len() + 2))); }
+            while v.len() < target + 8 { v.extend_from_slice(unit); }
+            v
+        }
         _ => vec![0x41u8; 65535],
     }
 }
